@@ -109,33 +109,49 @@ def run(ctx):
             "cafe\u0301", "cafe\u0301 ﬁn", "\u1112\u1161\u11ab", "a\u0323\u0308 q\u0308\u0323", "A\u030a ÅNGSTRÖM \u212b"]
     flagsets = list(itertools.product([0, 1], repeat=3))
     nseq = 10 if ctx.tier == "quick" else 60
+    def check_seq(lines, lo, fl, nf, lang):
+        data = "".join(l + "\n" for l in lines).encode("utf-8")
+        args = ["-l", lang] + (["--lower"] if lo else []) + (["--flatten"] if fl else []) + (["--normalize"] if nf else [])
+        st, out, err = pvlib.run_tool([ctx.bin("process_unicode")] + args, data, env=pvlib.san_env())
+        ctx.count("process_unicode", 1, [(tuple(args), data)])
+        # expected, line by line
+        cur = [pvlib.run_lines(impl, ["icu.fromutf8 " + hx(l.encode("utf-8"))], env=pvlib.san_env())[0].split()[1] for l in lines]
+        if lo:
+            cur = [r.split()[1] for r in pvlib.run_lines(impl, ["icu.lower " + c for c in cur], env=pvlib.san_env())]
+        if fl:
+            cur = [r.split()[1] for r in pvlib.run_lines(pvlib.PVDRIVER, [f"flat.spec.apply {lang} {spaces} {c}" for c in cur])]
+        if nf:
+            cur = [r.split()[1] for r in pvlib.run_lines(impl, ["icu.nfkc " + c for c in cur], env=pvlib.san_env())]
+        want = [unhx(r.split()[1]) for r in pvlib.run_lines(impl, ["icu.toutf8 " + c for c in cur], env=pvlib.san_env())]
+        got = out.split(b"\n")[:-1]
+        if st != 0 or got != want:
+            k = next((i for i, (p, q) in enumerate(zip(got, want)) if p != q), min(len(got), len(want)))
+            pvlib.report_violation(ctx, "pu:" + " ".join(args) + ":" + hx(data)[:60], {
+                "argv": ["process_unicode"] + args, "stdin_hex": hx(data), "status": st, "line_index": k,
+                "got": got[k].decode("utf-8", "replace") if k < len(got) else None,
+                "want": want[k].decode("utf-8", "replace") if k < len(want) else None},
+                summary=f"process_unicode {' '.join(args)} on {lines!r}: line {k} is {got[k].decode('utf-8', 'replace') if k < len(got) else None!r}, "
+                        f"the requested transforms applied to that line alone give {want[k].decode('utf-8', 'replace') if k < len(want) else None!r}")
+            return False
+        return True
+
     for (lo, fl, nf) in flagsets:
         for lang in (LANGS if ctx.tier != "quick" else rng.sample(LANGS, 2)):
             for _ in range(nseq // 5 or 1):
                 lines = [rng.choice(pool) for _ in range(rng.randrange(1, 7))]
-                data = "".join(l + "\n" for l in lines).encode("utf-8")
-                args = ["-l", lang] + (["--lower"] if lo else []) + (["--flatten"] if fl else []) + (["--normalize"] if nf else [])
-                st, out, err = pvlib.run_tool([ctx.bin("process_unicode")] + args, data, env=pvlib.san_env())
-                ctx.count("process_unicode", 1, [(tuple(args), data)])
-                # expected, line by line
-                cur = [pvlib.run_lines(impl, ["icu.fromutf8 " + hx(l.encode("utf-8"))], env=pvlib.san_env())[0].split()[1] for l in lines]
-                if lo:
-                    cur = [r.split()[1] for r in pvlib.run_lines(impl, ["icu.lower " + c for c in cur], env=pvlib.san_env())]
-                if fl:
-                    cur = [r.split()[1] for r in pvlib.run_lines(pvlib.PVDRIVER, [f"flat.spec.apply {lang} {spaces} {c}" for c in cur])]
-                if nf:
-                    cur = [r.split()[1] for r in pvlib.run_lines(impl, ["icu.nfkc " + c for c in cur], env=pvlib.san_env())]
-                want = [unhx(r.split()[1]) for r in pvlib.run_lines(impl, ["icu.toutf8 " + c for c in cur], env=pvlib.san_env())]
-                got = out.split(b"\n")[:-1]
-                if st != 0 or got != want:
-                    k = next((i for i, (p, q) in enumerate(zip(got, want)) if p != q), min(len(got), len(want)))
-                    pvlib.report_violation(ctx, "pu:" + " ".join(args) + ":" + hx(data)[:60], {
-                        "argv": ["process_unicode"] + args, "stdin_hex": hx(data), "status": st, "line_index": k,
-                        "got": got[k].decode("utf-8", "replace") if k < len(got) else None,
-                        "want": want[k].decode("utf-8", "replace") if k < len(want) else None},
-                        summary=f"process_unicode {' '.join(args)}: line {k} is {got[k].decode('utf-8', 'replace') if k < len(got) else None!r}, "
-                                f"the requested transforms give {want[k].decode('utf-8', 'replace') if k < len(want) else None!r}")
+                if not check_seq(lines, lo, fl, nf, lang):
                     break
+    # a line that ENDS in the beginning of a multi-character rule, after lines that have the whole rule at the same
+    # column (the tool reuses its string objects: what follows the end of the line in memory is the previous text)
+    rules = ["``", "''", "& quot ;", "& lt ;", "& gt ;", "& amp ;", "' s", "- year - old", "0{"]
+    for (lo, fl, nf) in [(0, 1, 0), (0, 1, 1), (1, 1, 0), (1, 1, 1)]:
+        for lang in (["en", "fr"] if ctx.tier == "quick" else LANGS):
+            for R in rules:
+                cuts = range(1, len(R)) if ctx.tier != "quick" else sorted({1, len(R) - 1, rng.randrange(1, len(R))})
+                for j in cuts:
+                    P = "ab"[:rng.randrange(0, 3)] + rng.choice(["", "The dogs", "x "])
+                    if not check_seq([P + R + "z w", P + R + "z w", P + R[:j], "plain", P + R[:j]], lo, fl, nf, lang):
+                        return
 
 
 def replay(ctx, rp):
